@@ -14,8 +14,8 @@ from props.engine_common import plain
 
 WORDS = {
     'W': ['ALFA', 'Bravo', 'market', 'STORE', 'Zulu', 'Émile'],
-    'M': ['A.B', 'C+', '(X)', 'A|B', '$5', 'W*', 'WHAT?', '[Q]', 'C\\D', '^UP', '{X}'],
-    'Q': ["JOE'S", 'O"K', "'N'", '"THE"'],
+    'M': ['A.B', 'C+', '(X)', 'A|B', '$5', 'W*', 'WHAT?', '[Q]', 'C\\D', '^UP', '{X}', 'SUB#2', '#ONE', 'NO.#7', 'A#B'],
+    'Q': ["JOE'S", 'O"K', "'N'", '"THE"', '6"', "5'", '"'],
     'N2': ['12', '7', '123'],
     'N4': ['1234', '98101', '0012345', '2025'],
     'H': ['#123', '#9', '#00042'],
